@@ -246,6 +246,18 @@ def ts_lit_with_offset(rnd, v):
     return f"timestamp({MV.str_lit(MV.ts_text(v[1], off))})"
 
 
+def zoned_ts(rnd, celv, mvv):
+    """The bound timestamp re-made from an aware datetime.datetime in a fixed-offset zone (same instant)."""
+    import datetime
+
+    off = MV.rand_offset(rnd)
+    if not off or not (MV.TS_MIN_US + 86400 * 10**6 <= mvv[1] + off * 60 * 10**6 <= MV.TS_MAX_US - 86400 * 10**6):
+        return celv
+    tz = datetime.timezone(datetime.timedelta(minutes=off))
+    aware = datetime.datetime(1970, 1, 1, tzinfo=datetime.timezone.utc) + datetime.timedelta(microseconds=mvv[1])
+    return type(celv)(aware.astimezone(tz))
+
+
 class Checker:
     def __init__(self, acc, rnd):
         self.acc = acc
@@ -281,10 +293,19 @@ class Checker:
             if la is not None and lb is not None:
                 mode, bind = "literal", {}
                 tx, ty = "(" + la + ")", "(" + lb + ")"
+            if mode == "literal" and a[0] == "ts" and self.rnd.random() < 0.5:
+                # the same instants after passing through timestamp arithmetic (the result is built from a datetime, not from text)
+                mode = "literal-arith"
+                tx, ty = "(" + la + " + duration('0s'))", "(" + lb + " - duration('0s'))"
         src = "[" + ", ".join([f"{tx} {o} {ty}" for o in ops] + [f"{ty} {o} {tx}" for o in ops] + [f"{tx} == {tx}", f"{ty} == {ty}"]) + "]"
         benv = MV.cel_env(bind)
+        if mode == "bound" and a[0] == "ts" and self.rnd.random() < 0.5:
+            # host-bound timestamps carrying the zone the host's datetime was in (same instants)
+            mode = "bound-zoned"
+            benv = {k: zoned_ts(self.rnd, v, bind[k]) for k, v in benv.items()}
+            acc.hook("bound-zoned-timestamp")
         for r in "IC":
-            out = core.eval_cached(r, src, benv) if mode == "bound" else core.api_eval(r, src, benv)
+            out = core.eval_cached(r, src, benv) if mode.startswith("bound") else core.api_eval(r, src, benv)
             acc.hook("evaluate:" + r)
             acc.evaluations += 1
             acc.cell(tname, mode, r, rel, "ok" if out[0] == "V" else out[0])
